@@ -9,6 +9,7 @@ import (
 	"os"
 	"path/filepath"
 	"sort"
+	"regexp"
 	"strconv"
 	"strings"
 
@@ -35,6 +36,7 @@ type LPkg struct {
 	CF     *ContractFile
 	Units  map[string]*FuncUnit // by contract key
 	Drift  map[string]string    // contract units dropped because the code drifted away (key -> reason)
+	SkipAssert map[string]string // point assertions dropped on their own ("Key#k" -> reason)
 	Extern map[*ssa.Function]*FuncUnit // assumed contracts on functions of other modules
 	Lemmas []*LemmaUnit
 	posIdx map[*ast.File]map[token.Pos]ast.Node
@@ -84,6 +86,12 @@ type FuncUnit struct {
 	Asserts  []*AssertUnit
 	Steps    []*ssa.Function
 	Dropped  []string
+	// LoopDrift: loops whose header text no longer matches the contract; their annotations are
+	// attached by ordinal all the same, and the unit's failures count only if those invariants
+	// still verify (else the unit is undecided).  AssertDrift: assertions whose anchor statement
+	// is gone or ambiguous; they are left out and reported undecided one by one.
+	LoopDrift   []string
+	AssertDrift []string
 	id       string
 	IfaceT   *types.Named // for iface contracts
 	IfaceM   string
@@ -268,6 +276,21 @@ func Load(patterns []string) (*Loaded, error) {
 				}
 				if key == "" {
 					fatal = append(fatal, te.Error())
+					continue
+				}
+				// an error inside the stub of one point assertion drops that assertion only
+				if os.Getenv("GOVC_DEBUG_DRIFT") != "" {
+					fmt.Fprintf(os.Stderr, "type error %s at stub line %d: %q (assert stub %d)\n", te.Msg, pos.Line, lines[pos.Line-1], enclosingAssertStub(lines, pos.Line-1))
+				}
+				if ak := enclosingAssertStub(lines, pos.Line-1); ak >= 0 {
+					if lp.SkipAssert == nil {
+						lp.SkipAssert = map[string]string{}
+					}
+					sk := fmt.Sprintf("%s#%d", key, ak)
+					if _, dup := lp.SkipAssert[sk]; !dup {
+						lp.SkipAssert[sk] = "does not type-check against the current code: " + te.Msg
+						progressed = true
+					}
 					continue
 				}
 				if _, dup := skip[key]; !dup {
@@ -750,22 +773,54 @@ func (ld *Loaded) genStubOnce(lp *LPkg, skip map[string]string, cur *string) (st
 			emit("post", strings.Join(pdr, ", ")+oldDecl, append(append([]Clause{}, fc.Ensures...), fc.Assumes...), "")
 		}
 		// loops
+		// Which loop of the code each annotated loop of the contract is: the loop at the recorded
+		// ordinal if its header still reads the same; else the only unclaimed loop with that header
+		// (loops were added or removed before it); else the loop at the recorded ordinal, if no other
+		// annotation claims it (its header was edited: LoopDrift); else none (the loop is gone).
+		loopOf := map[*LoopContract]int{}
+		claimedLoop := map[int]bool{}
+		hdr := func(i int) string { return squeeze(loopCondText(ld.Fset, u.AstLoops[i])) }
 		for _, lc := range fc.Loops {
-			if lc.Ordinal < 0 || lc.Ordinal >= len(u.AstLoops) {
-				// the loop is gone: its annotations have nothing to attach to; the rest of the
-				// contract still applies (and must now hold without them)
-				u.Dropped = append(u.Dropped, fmt.Sprintf("annotations of loop %d (loop no longer exists)", lc.Ordinal))
+			if lc.Ordinal >= 0 && lc.Ordinal < len(u.AstLoops) && (lc.CondText == "" || hdr(lc.Ordinal) == squeeze(lc.CondText)) {
+				loopOf[lc] = lc.Ordinal
+				claimedLoop[lc.Ordinal] = true
+			}
+		}
+		for _, lc := range fc.Loops {
+			if _, ok := loopOf[lc]; ok || lc.CondText == "" {
 				continue
 			}
-			stmt := u.AstLoops[lc.Ordinal]
-			if lc.CondText != "" {
-				got := loopCondText(ld.Fset, stmt)
-				if squeeze(got) != squeeze(lc.CondText) {
-					return "", fmt.Errorf("%s:%d: contract drift: loop %d of %s is %q, contract says %q", cf.Path, lc.Line, lc.Ordinal, fc.Key, got, lc.CondText)
+			cand := -1
+			for i := range u.AstLoops {
+				if !claimedLoop[i] && hdr(i) == squeeze(lc.CondText) {
+					if cand >= 0 {
+						cand = -2
+						break
+					}
+					cand = i
 				}
 			}
+			if cand >= 0 {
+				loopOf[lc] = cand
+				claimedLoop[cand] = true
+			}
+		}
+		for _, lc := range fc.Loops {
+			co, ok := loopOf[lc]
+			if !ok && lc.Ordinal >= 0 && lc.Ordinal < len(u.AstLoops) && !claimedLoop[lc.Ordinal] && !(lc.Of > 0 && len(u.AstLoops) < lc.Of) {
+				co, ok = lc.Ordinal, true
+				claimedLoop[co] = true
+				u.LoopDrift = append(u.LoopDrift, fmt.Sprintf("%s:%d: loop %d of %s is %q, contract says %q", cf.Path, lc.Line, lc.Ordinal, fc.Key, loopCondText(ld.Fset, u.AstLoops[co]), lc.CondText))
+			}
+			if !ok {
+				// the loop is gone: its annotations have nothing to attach to; the rest of the
+				// contract still applies (and must now hold without them)
+				u.Dropped = append(u.Dropped, fmt.Sprintf("annotations of loop %d %q (loop no longer exists)", lc.Ordinal, lc.CondText))
+				continue
+			}
+			stmt := u.AstLoops[co]
 			lu := &LoopUnit{C: lc, Stmt: stmt}
-			u.Loops[lc.Ordinal] = lu
+			u.Loops[co] = lu
 			// signature: recv/params/olds, then locals mentioned
 			ps, ds := u.sigParams(qual, false)
 			for i := range ds {
@@ -845,7 +900,7 @@ func (ld *Loaded) genStubOnce(lp *LPkg, skip map[string]string, cur *string) (st
 				}
 			}
 			lu.Params = ps
-			fmt.Fprintf(&body, "func _vcinv_%s_%d(%s) (", u.id, lc.Ordinal, strings.Join(ds, ", "))
+			fmt.Fprintf(&body, "func _vcinv_%s_%d(%s) (", u.id, co, strings.Join(ds, ", "))
 			for i := range lc.Invariants {
 				if i > 0 {
 					body.WriteString(", ")
@@ -884,9 +939,14 @@ func (ld *Loaded) genStubOnce(lp *LPkg, skip map[string]string, cur *string) (st
 			if u.Decl == nil {
 				continue
 			}
+			if why, bad := lp.SkipAssert[fmt.Sprintf("%s#%d", fc.Key, k)]; bad {
+				u.AssertDrift = append(u.AssertDrift, fmt.Sprintf("%s:%d: %s: assertion %s: %s", cf.Path, ac.Line, fc.Key, assertLabel(ac, k), why))
+				continue
+			}
 			stmt, err := findStmt(ld.Fset, u.Decl.Body, ac.Anchor)
 			if err != nil {
-				return "", fmt.Errorf("%s:%d: contract drift: %s: %v", cf.Path, ac.Line, fc.Key, err)
+				u.AssertDrift = append(u.AssertDrift, fmt.Sprintf("%s:%d: %s: assertion %s: %v", cf.Path, ac.Line, fc.Key, assertLabel(ac, k), err))
+				continue
 			}
 			if ac.When == "in" {
 				// `in "if cond"`: at the start of the then-branch of that if statement
@@ -1232,4 +1292,31 @@ func (lp *LPkg) nodeAt(fset *token.FileSet, pos token.Pos) ast.Node {
 		}
 	}
 	return nil
+}
+
+func assertLabel(ac *AssertContract, k int) string {
+	if ac.Snap != "" {
+		return "snap " + ac.Snap
+	}
+	if ac.Clause.Label != "" {
+		return ac.Clause.Label
+	}
+	return fmt.Sprintf("#%d", k)
+}
+
+var assertStubRe = regexp.MustCompile(`^func _vcassert_[0-9]+_([0-9]+)\(`)
+
+// enclosingAssertStub: the ordinal k of the point-assertion stub function containing line l of
+// the stub source, or -1.
+func enclosingAssertStub(lines []string, l int) int {
+	for ; l >= 0 && l < len(lines); l-- {
+		if strings.HasPrefix(lines[l], "func ") {
+			if m := assertStubRe.FindStringSubmatch(lines[l]); m != nil {
+				k, _ := strconv.Atoi(m[1])
+				return k
+			}
+			return -1
+		}
+	}
+	return -1
 }
